@@ -1163,7 +1163,9 @@ pub(crate) fn eval_query(ctx: &Context, expr: &Query) -> Result<QueryReply, Quer
                     out.push((category, name));
                 }
             }
-            if let Some((dim, _power)) = val.unit.as_single() {
+            // The base unit itself, but only for the base unit to the
+            // first power: `meter` is not a unit of area.
+            if let Some((dim, 1)) = val.unit.as_single() {
                 dim_name = ctx
                     .canonicalize(dim.as_str())
                     .unwrap_or_else(|| dim.to_string());
